@@ -70,6 +70,17 @@ func vfRandSuite(r *verifkit.Rand, name string) *conformancev1.TestSuite {
 		if r.Chance(1, 8) {
 			req.TestName = fmt.Sprintf("t%d", r.Intn(3)) // flat names too
 		}
+		// fields the expansion owns may be pre-set in the YAML; they must be overwritten per permutation
+		if r.Chance(1, 6) {
+			req.ServerTlsCert = []byte("from-yaml")
+		}
+		if r.Chance(1, 6) {
+			req.ClientTlsCreds = &conformancev1.TLSCreds{Cert: []byte("from-yaml"), Key: []byte("from-yaml")}
+		}
+		if r.Chance(1, 6) {
+			req.HttpVersion, req.Protocol = conformancev1.HTTPVersion(1+r.Intn(3)), conformancev1.Protocol(1+r.Intn(3))
+			req.Codec, req.Compression = conformancev1.Codec(1+r.Intn(2)), conformancev1.Compression(1+r.Intn(6))
+		}
 		tc := &conformancev1.TestCase{Request: req}
 		// raw request/response shapes matter to the gRPC-peer filter
 		if s.Mode == conformancev1.TestSuite_TEST_MODE_SERVER && r.Chance(1, 6) {
